@@ -85,8 +85,10 @@ def hypothesis_stats(d, mi, c):
     n = 0
     with open(mi2, "w") as fh:
         for i, l in enumerate(mi):
+            if l.startswith("xexp ") or l.startswith("xload "):
+                continue        # stateless XML lines: irrelevant for the hypotheses, and long
             fh.write(l + "\n")
-            t = l.split()
+            t = l.split(None, 3)
             if len(t) == 3 and t[0] == "build" and i < len(c) and c[i].startswith("ret=0 "):
                 fh.write("hyp %s %s\n" % (t[1], t[2]))
                 n += 1
